@@ -39,8 +39,8 @@ BOUNDS = {
                      BMax=2, MerLons={0, 90, 95}, PoleLons={0, 217}, EpsSet={0, 1, 2, 3}, MaxD=11, LonStep8=1,
                      ShiftSet8={0, 1, 7, 8, 360, 720, 1440, 1441, 2160, 2879, 2880, 2881, 3240, 4320, 5759, 5760, 5761, 8640}),
 }
-MODEL_ACTIONS = ["Start", "Step", "PickFrame", "PickGC1", "PickRS1", "PickShift", "PickCube", "PickAnchor"]
-MODEL_INVARIANTS = ["PathTheorems", "PointTheorems", "IsoTheorems", "ShiftTheorems", "ShiftRefines", "CubeTheorems",
+MODEL_ACTIONS = ["Start", "Step", "PickFrame", "PickOpt", "PickGC1", "PickRS1", "PickShift", "PickCube", "PickAnchor"]
+MODEL_INVARIANTS = ["PathTheorems", "PointTheorems", "OptTheorems", "IsoTheorems", "ShiftTheorems", "ShiftRefines", "CubeTheorems",
                     "AnchorTheorems"]
 ALLOW = Fraction(2, 10 ** 13)     # rounding of exact lattice / decimal inputs to doubles (<= 2.9e-14 degree per coordinate)
 EULER = ("eq2gal", "gal2eq", "eq2ec", "ec2eq", "ec2gal", "gal2ec")
@@ -62,49 +62,66 @@ def ld_pi():
     return _LDPI
 
 
+class St(tuple):
+    """a state: the coordinate arrays of n points + what they are: 'deg' (lon, lat), 'rad' (lon, lat), 'xyz'"""
+
+    def __new__(cls, arrs, kind):
+        o = super().__new__(cls, arrs)
+        o.kind = kind
+        return o
+
+
+KIND = {"eq": "deg", "gal": "deg", "ec": "deg", "sdss": "deg", "eqr": "rad", "xyz": "xyz", "xyzs": "xyz"}
+
+
 def dval(x):
     """decimal angle <<hi, lo>> = hi*1e-6 + lo*1e-12 degrees, exactly"""
     return Fraction(int(x[0]), 10 ** 6) + Fraction(int(x[1]), 10 ** 12)
 
 
-def unit_ld(lon, lat):
-    """unit vectors (longdouble) of float64 coordinates in degrees"""
-    d2r = ld_pi() / L(180)
-    lo = np.asarray(lon, dtype="f8").astype(L) * d2r
-    la = np.asarray(lat, dtype="f8").astype(L) * d2r
+def unit_ld(lon, lat, rad=False):
+    """unit vectors (longdouble) of coordinates in degrees (or radians)"""
+    d2r = L(1) if rad else ld_pi() / L(180)
+    lo = np.asarray(lon).astype(L) * d2r
+    la = np.asarray(lat).astype(L) * d2r
     cl = np.cos(la)
     return cl * np.cos(lo), cl * np.sin(lo), np.sin(la)
 
 
 def sph_state(frame, lon, lat):
-    """exact Fractions of degrees -> the state (tuple of float64 arrays) of one point"""
+    """exact Fractions of degrees -> the float64 coordinates of one point in that frame"""
     if frame == "sdss" and lon > 180:
         lon -= 360
-    if frame == "xyz":
+    if KIND[frame] == "xyz":
         x, y, z = unit_ld([float(lon)], [float(lat)])
         return (float(x[0]), float(y[0]), float(z[0]))
+    if KIND[frame] == "rad":
+        return (sl.rad_float(lon), sl.rad_float(lat))
     return (float(lon), float(lat))
 
 
 def rs_state(frame, v):
     a, b, c, d = (int(t) for t in v)
-    if frame == "xyz":
+    if KIND[frame] == "xyz":
         return (a / d, b / d, c / d)
     ra, dec = sl.rs_point_deg(v)
     if frame == "sdss" and ra > 180.0:
         ra -= 360.0
+    if KIND[frame] == "rad":
+        d2r = ld_pi() / L(180)
+        return (float(L(ra) * d2r), float(L(dec) * d2r))
     return (ra, dec)
 
 
 def concretise(frame, pts):
     """input points of a path equation (PtD / PtR records) -> state"""
     rows = [rs_state(frame, p["v"]) if p["k"] == "r" else sph_state(frame, dval(p["lon"]), dval(p["lat"])) for p in pts]
-    return tuple(np.array(col, dtype="f8") for col in zip(*rows))
+    return St((np.array(col, dtype="f8") for col in zip(*rows)), KIND[frame])
 
 
 def gc_state(frame, gpts, eps):
     rows = [sph_state(frame, sl.eangle(p["lon"], eps), sl.eangle(p["lat"], eps)) for p in gpts]
-    return tuple(np.array(col, dtype="f8") for col in zip(*rows))
+    return St((np.array(col, dtype="f8") for col in zip(*rows)), KIND[frame])
 
 
 # ---------------------------------------------------------------------------------
@@ -113,70 +130,113 @@ class _Shape(Exception):
     pass
 
 
-def _invoke(name, args, b1950, ang):
+DT = {"f4": "f4", "ld": np.longdouble}
+PER_ELEMENT = ("scalar", "n1", "npscalar")
+
+
+def SI(name, units="deg", stomp=False):
+    """selector info of a conversion called with its default options"""
+    return {"name": name, "units": units, "stomp": stomp, "hasdtype": name not in ("xyz2eq", "rotate")}
+
+
+def _invoke(si, args, b1950, ang, dt):
     import esutil.coords as co
+    name = si["name"]
+    kw = {"dtype": DT[dt]} if (dt != "f8" and si["hasdtype"]) else {}
     if name in EULER:
-        return getattr(co, name)(args[0], args[1], b1950=b1950)
+        return getattr(co, name)(args[0], args[1], b1950=b1950, **kw)
     if name == "eq2sdss":
-        lam, eta = co.eq2sdss(args[0], args[1])
+        lam, eta = co.eq2sdss(args[0], args[1], **kw)
         return eta, lam                              # state order: (longitude-like eta, latitude-like lambda)
     if name == "sdss2eq":
-        return co.sdss2eq(args[1], args[0])
-    if name == "eq2xyz":
-        return co.eq2xyz(args[0], args[1])
-    if name == "xyz2eq":
-        return co.xyz2eq(args[0], args[1], args[2])
+        return co.sdss2eq(args[1], args[0], **kw)
+    if name in ("eq2xyz", "xyz2eq"):
+        if si["units"] != "deg":
+            kw["units"] = si["units"]
+        if si["stomp"]:
+            kw["stomp"] = True
+        return co.eq2xyz(args[0], args[1], **kw) if name == "eq2xyz" else co.xyz2eq(args[0], args[1], args[2], **kw)
     if name == "rotate":
         return co.rotate(ang[0], ang[1], ang[2], args[0], args[1])
     raise MachineryError("unknown conversion " + name)
 
 
-def apply(name, st, shape, b1950=False, ang=None):
-    """one conversion on the n points of state st -> (errs per point, output state)"""
+def present(arrs, rep):
+    """the value arrays in the requested whole-array representation -> (call arguments, snapshot function)"""
+    if rep == "list":
+        args = tuple([float(v) for v in a] for a in arrs)
+        return args, lambda: [list(a) for a in args]
+    if rep == "strided":
+        bases = []
+        for a in arrs:
+            big = np.full(2 * len(a) + 1, 7.25, dtype=a.dtype)
+            big[1::2] = a
+            bases.append(big)
+        return tuple(bg[1::2] for bg in bases), lambda: [bg.tobytes() for bg in bases]
+    conv = {"f4": "f4", "int": "i8", "swapped": ">f8"}.get(rep)
+    args = tuple(np.array(a, copy=True) if conv is None else np.array(a).astype(conv) for a in arrs)
+    return args, lambda: [a.tobytes() for a in args]
+
+
+def apply(si, st, rep, b1950=False, ang=None, dt="f8"):
+    """one conversion on the n points of state st -> (errs per point, output state).  Results keep the type the
+    code returned them in (float32 / longdouble), so that a chain hands them on as a caller would."""
+    if isinstance(si, str):
+        si = SI(si)
+    name = si["name"]
     n = len(st[0])
     nout = 3 if name == "eq2xyz" else 2
-    out = [np.full(n, np.nan) for _ in range(nout)]
+    vals = [[np.nan] * n for _ in range(nout)]
     errs = ["none"] * n
 
     def one(args, idxs):
         try:
             with np.errstate(all="ignore"):
-                res = _invoke(name, args, b1950, ang)
-            res = [np.asarray(r, dtype="f8").ravel() for r in res]
-            if len(res) != nout or any(r.size != len(idxs) for r in res):
+                res = _invoke(si, args, b1950, ang, dt)
+            res = [np.asarray(r).ravel() for r in res]
+            if len(res) != nout or any(r.size != len(idxs) or r.dtype.kind != "f" for r in res):
                 raise _Shape()
             for k in range(nout):
-                out[k][idxs] = res[k]
+                for j, i in enumerate(idxs):
+                    vals[k][i] = res[k][j]
         except Exception as e:  # noqa
             return "ShapeError" if isinstance(e, _Shape) else type(e).__name__
         return "none"
 
-    if shape == "array":
-        args = tuple(np.array(a, dtype="f8") for a in st)
-        before = [a.tobytes() for a in args]
-        e = one(args, np.arange(n))
-        if e == "none" and [a.tobytes() for a in args] != before:
+    if rep in PER_ELEMENT:
+        for i in range(n):
+            if rep == "scalar":
+                args = tuple(float(a[i]) for a in st)
+            elif rep == "npscalar":
+                args = tuple(a[i] for a in st)
+            else:
+                args = tuple(np.array(a[i:i + 1], copy=True) for a in st)
+            errs[i] = one(args, [i])
+    else:
+        args, snap = present(st, rep)
+        before = snap()
+        e = one(args, range(n))
+        if e == "none" and snap() != before:
             e = "ArgumentModified"
         if e != "none":
             # localise: a rejection of the whole array is attributed to the elements that are rejected alone
-            single = [one(tuple(np.array([a[i]], dtype="f8") for a in st), [i]) for i in range(n)]
+            vals = [[np.nan] * n for _ in range(nout)]
+            single = [one(present(tuple(a[i:i + 1] for a in st), rep)[0], [i]) for i in range(n)]
             errs = single if any(s != "none" for s in single) else [e] * n
-    else:
-        for i in range(n):
-            if shape == "scalar":
-                args = tuple(float(a[i]) for a in st)
-            else:
-                args = tuple(np.array([a[i]], dtype="f8") for a in st)
-            errs[i] = one(args, [i])
-    return errs, tuple(out)
+    kind = "xyz" if name == "eq2xyz" else ("rad" if (name == "xyz2eq" and si["units"] == "rad") else "deg")
+    return errs, St((np.array(v) for v in vals), kind)
+
+
+def vec_ld(st):
+    if st.kind == "xyz":
+        return tuple(np.asarray(a).astype(L) for a in st)
+    return unit_ld(st[0], st[1], rad=(st.kind == "rad"))
 
 
 def sep_states(a, b):
-    """on-sky separation (longdouble degrees) of two states of the same frame type"""
+    """on-sky separation (longdouble degrees) of two states"""
     with np.errstate(all="ignore"):
-        if len(a) == 3:
-            return sl.sep_xyz_ld(a[0], a[1], a[2], b[0], b[1], b[2])
-        return sl.sep_ld(a[0], a[1], b[0], b[1])
+        return sl.sep_xyz_ld(*(vec_ld(a) + vec_ld(b)))
 
 
 def d9_of(sep, allow=0.0):
@@ -195,7 +255,7 @@ class Track:
     def __init__(self, n):
         self.err = ["none"] * n
         self.fin = np.ones(n, bool)
-        self.lat = np.ones(n, bool)
+        self.latx = np.zeros(n, dtype=L)     # largest excess of a latitude over +-90 degrees
         self.emin = np.full(n, np.inf)
         self.emax = np.full(n, -np.inf)
         self.ul = np.zeros(n, dtype=L)
@@ -207,8 +267,10 @@ class Track:
 
     def _polar(self, st):
         with np.errstate(all="ignore"):
-            if len(st) == 3:
+            if st.kind == "xyz":
                 self.polar |= np.abs(st[2]) >= 0.99999998
+            elif st.kind == "rad":
+                self.polar |= np.abs(st[1]) >= 1.57062
             else:
                 self.polar |= np.abs(st[1]) >= 89.99
 
@@ -220,42 +282,60 @@ class Track:
             f = np.ones(len(st[0]), bool)
             for a in st:
                 f &= np.isfinite(a)
-            comp = ("x", "y", "z") if len(st) == 3 else ("lon", "lat")
+            comp = ("x", "y", "z") if st.kind == "xyz" else ("lon", "lat")
             for i in np.nonzero(self.fin & ~f)[0]:
                 self.nonfin[i] = name + ":" + "+".join(c for c, a in zip(comp, st) if not np.isfinite(a[i]))
             self.fin &= f
             self._polar(st)
-            if len(st) == 3:
+            if st.kind == "xyz":
                 x, y, z = (a.astype(L) for a in st)
-                dev = np.abs(np.sqrt(x * x + y * y + z * z) - L(1)) * L(2 ** 52)
+                ulp = L(max(float(np.finfo(st[0].dtype).eps), 2.0 ** -52))      # of the type asked for, at least float64's
+                dev = np.abs(np.sqrt(x * x + y * y + z * z) - L(1)) / ulp
                 self.ul = np.where(f, np.maximum(self.ul, dev), self.ul)
             else:
-                self.lat &= ~f | (np.abs(st[1]) <= 90.0)
+                la = np.abs(st[1].astype(L))
+                ex = (la - ld_pi() / L(2)) * (L(180) / ld_pi()) if st.kind == "rad" else la - L(90)
+                self.latx = np.where(f, np.maximum(self.latx, ex), self.latx)
                 if name == "eq2sdss":
-                    self.emin = np.where(f, np.minimum(self.emin, st[0]), self.emin)
-                    self.emax = np.where(f, np.maximum(self.emax, st[0]), self.emax)
+                    lo = st[0].astype("f8")
+                    self.emin = np.where(f, np.minimum(self.emin, lo), self.emin)
+                    self.emax = np.where(f, np.maximum(self.emax, lo), self.emax)
 
     def fields(self, i):
         has = math.isfinite(self.emin[i])
         ul = float(np.ceil(self.ul[i]))
-        return {"err": self.err[i], "fin": bool(self.fin[i]), "lat": bool(self.lat[i]),
+        # (an excess below one float64 ulp of 90 degrees can only be longdouble rounding: results are demanded at float64 resolution)
+        return {"err": self.err[i], "fin": bool(self.fin[i]), "lx": d9_of(self.latx[i], 1e-14)[0],
                 "el": int(math.floor(self.emin[i])) if has else 0, "eh": int(math.ceil(self.emax[i])) if has else 0,
                 "ul": int(min(ul, 2 ** 20)) if math.isfinite(ul) else 2 ** 20}
+
+
+def first_rep(rep):
+    """representation handed to the conversions after the first one of a chain"""
+    return rep if rep in PER_ELEMENT else "array"
+
+
+def round_to_rep(st, rep):
+    """the points as they are exactly representable in the requested input representation"""
+    if rep == "f4":
+        return St((a.astype("f4").astype("f8") for a in st), st.kind)
+    return st
 
 
 # ---------------------------------------------------------------------------------
 # job -> record judged by FramesTrace.tla (+ python-side meta for messages / signatures)
 def eval_eqn(job):
-    e, names, pts, shape, b = job["eqn"], job["names"], job["pts"], job["shape"], job["b1950"]
-    st0 = concretise(e["frame"], pts)
+    e, sels, pts, rep, b, dt = job["eqn"], job["sels"], job["pts"], job["rep"], job["b1950"], job["dt"]
+    st0 = round_to_rep(concretise(e["frame"], pts), rep)
     tr = Track(len(pts))
     tr.inputs(st0)
     ends = []
     for side in (e["path"], e["rhs"]):
         st = st0
-        for s in side:
-            errs, st = apply(names[str(s)], st, shape, b1950=b)
-            tr.step(names[str(s)], errs, st)
+        for n, s in enumerate(side):
+            si = sels[str(s)]
+            errs, st = apply(si, st, rep if n == 0 else first_rep(rep), b1950=b, dt=dt)
+            tr.step(si["name"], errs, st)
         ends.append(st)
     d9 = d9_of(sep_states(ends[0], ends[1]))
     obs, meta = [], {}
@@ -267,7 +347,7 @@ def eval_eqn(job):
         obs.append(o)
         meta[i + 1] = {"polar": bool(tr.polar[i]), "errat": tr.err[i], "nonfin": tr.nonfin[i], "in": [float(a[i]).hex() for a in st0],
                        "lhs": [float(a[i]) for a in ends[0]], "rhs": [float(a[i]) for a in ends[1]]}
-    c = {"kind": "eqn", "path": e["path"], "rhs": e["rhs"], "tol9": e["tol9"], "frame": e["frame"], "b1950": b}
+    c = {"kind": "eqn", "path": e["path"], "rhs": e["rhs"], "tol9": job["tol9"], "frame": e["frame"], "b1950": b, "dt": dt, "rep": rep}
     return {"c": c, "obs": obs, "meta": meta}
 
 
@@ -281,10 +361,10 @@ def eval_iso(job):
     st0 = gc_state(job["src"], pts, eps)
     tr = Track(len(pts))
     tr.inputs(st0)
-    errs, st = apply(job["name"], st0, "array", b1950=job["b1950"], ang=_ang(job))
+    errs, st = apply(job["si"], st0, "array", b1950=job["b1950"], ang=_ang(job))
     tr.step(job["name"], errs, st)
-    first = tuple(np.repeat(a[:1], len(pts) - 1) for a in st)
-    rest = tuple(a[1:] for a in st)
+    first = St((np.repeat(a[:1], len(pts) - 1) for a in st), st.kind)
+    rest = St((a[1:] for a in st), st.kind)
     seps = sep_states(first, rest) if len(pts) > 1 else []
     tol = Fraction(job["tol9"], 10 ** 9) + ALLOW
     obs, meta = [], {}
@@ -306,13 +386,13 @@ def eval_iso(job):
 def eval_isor(job):
     pts = [job["u"]] + job["vs"]
     rows = [rs_state(job["src"], v) for v in pts]
-    st0 = tuple(np.array(col, dtype="f8") for col in zip(*rows))
+    st0 = St((np.array(col, dtype="f8") for col in zip(*rows)), KIND[job["src"]])
     tr = Track(len(pts))
     tr.inputs(st0)
-    errs, st = apply(job["name"], st0, "array", b1950=job["b1950"], ang=_ang(job))
+    errs, st = apply(job["si"], st0, "array", b1950=job["b1950"], ang=_ang(job))
     tr.step(job["name"], errs, st)
-    first = tuple(np.repeat(a[:1], len(pts) - 1) for a in st)
-    rest = tuple(a[1:] for a in st)
+    first = St((np.repeat(a[:1], len(pts) - 1) for a in st), st.kind)
+    rest = St((a[1:] for a in st), st.kind)
     seps = sep_states(first, rest)
     tol = Fraction(job["tol9"], 10 ** 9) + ALLOW
     thetas = job.get("_thetas")
@@ -341,20 +421,20 @@ def eval_isor(job):
 
 
 def eval_anchor(job):
-    a = job["a"]
-    st0 = tuple(np.array([float(dval(a["in"][f]))]) for f in ("lon", "lat"))
-    want = tuple(np.array([float(dval(a["out"][f]))]) for f in ("lon", "lat"))
+    a, dt = job["a"], job["dt"]
+    st0 = St((np.array([float(dval(a["in"][f]))]) for f in ("lon", "lat")), "deg")
+    want = St((np.array([float(dval(a["out"][f]))]) for f in ("lon", "lat")), "deg")
     obs, meta = [], {}
-    for k, shape in enumerate(SHAPES, 1):
+    for k, shape in enumerate(job["reps"], 1):
         tr = Track(1)
-        errs, st = apply(job["name"], st0, shape)
+        errs, st = apply(job["name"], st0, shape, dt=dt)
         tr.step(job["name"], errs, st)
         f = tr.fields(0)
         d9 = d9_of(sep_states(st, want), float(ALLOW))[0]
-        obs.append({"k": k, "err": "none" if f["err"] == "none" else f["err"].split(":")[1], "fin": f["fin"], "lat": f["lat"],
+        obs.append({"k": k, "err": "none" if f["err"] == "none" else f["err"].split(":")[1], "fin": f["fin"], "lx": f["lx"],
                     "d9": d9 if f["fin"] and f["err"] == "none" else CAP})
-        meta[k] = {"shape": shape, "got": [float(t[0]) for t in st], "polar": True}
-    return {"c": {"kind": "anchor", "sel": job["sel"], "a": a, "tol9": job["tol9"]}, "obs": obs, "meta": meta}
+        meta[k] = {"shape": shape, "got": [float(t[0]) for t in st], "polar": True, "err": f["err"]}
+    return {"c": {"kind": "anchor", "sel": job["sel"], "a": a, "tol9": job["tol9"], "dt": dt}, "obs": obs, "meta": meta}
 
 
 def _snap(vec, d):
@@ -369,10 +449,10 @@ def eval_cube(job):
     pts = job["pts"]
     ang = tuple(90.0 * q + 360.0 * w for q, w in zip(job["q"], job["wind"]))
     rows = [rs_state("eq", v) for v in pts]
-    st0 = tuple(np.array(col, dtype="f8") for col in zip(*rows))
+    st0 = St((np.array(col, dtype="f8") for col in zip(*rows)), "deg")
     tolv = job["tol9"] * 1e-9 + float(ALLOW)
     obs, meta = [], {}
-    for k, shape in enumerate(("array", "scalar"), 1):
+    for k, shape in enumerate(job["reps"], 1):
         tr = Track(len(pts))
         errs, st = apply("rotate", st0, shape, ang=ang)
         tr.step("rotate", errs, st)
@@ -396,7 +476,7 @@ def eval_cube(job):
 def eval_rot(job):
     ang = _ang(job)
     pts, shape = job["pts"], job["shape"]
-    st0 = concretise("eq", pts)
+    st0 = round_to_rep(concretise("eq", pts), shape)
     tr = Track(len(pts))
     tr.inputs(st0)
     errs, st1 = apply("rotate", st0, shape, ang=ang)
@@ -404,18 +484,18 @@ def eval_rot(job):
     ds = []
     for cand in job["cands"]:
         back = tuple(sg * ang[ix - 1] for ix, sg in cand)
-        errs, st2 = apply("rotate", st1, shape, ang=back)
+        errs, st2 = apply("rotate", st1, first_rep(shape), ang=back)
         tr.step("rotate", errs, st2)
         ds.append(d9_of(sep_states(st2, st0)))
     obs, meta = [], {}
     for i in range(len(pts)):
         f = tr.fields(i)
         good = f["fin"] and f["err"] == "none"
-        obs.append({"k": i + 1, "err": "none" if f["err"] == "none" else f["err"].split(":")[1], "fin": f["fin"], "lat": f["lat"],
+        obs.append({"k": i + 1, "err": "none" if f["err"] == "none" else f["err"].split(":")[1], "fin": f["fin"], "lx": f["lx"],
                     "ds": [d[i] if good else CAP for d in ds]})
         meta[i + 1] = {"polar": bool(tr.polar[i]), "p": pts[i], "in": [float(a[i]) for a in st0], "rot": [float(a[i]) for a in st1],
-                       "nonfin": tr.nonfin[i]}
-    return {"c": {"kind": "rot", "cands": job["cands"], "tol9": job["tol9"], "ang": job["ang"]}, "obs": obs, "meta": meta}
+                       "nonfin": tr.nonfin[i], "errat": tr.err[i]}
+    return {"c": {"kind": "rot", "cands": job["cands"], "tol9": job["tol9"], "ang": job["ang"], "rep": shape}, "obs": obs, "meta": meta}
 
 
 def _shift_call(fn, x, mode, s):
@@ -430,21 +510,49 @@ def _shift_call(fn, x, mode, s):
     return f(x, wrap=False)
 
 
+SHIFT_REPS = ("array", "scalar", "n1", "npscalar", "list", "f4", "int", "swapped", "strided")
+
+
+def _shift_arg(shape, vals):
+    """the longitudes in one input representation, or None when they are not exactly representable in it"""
+    if shape == "scalar":
+        return vals[0], None
+    if shape == "npscalar":
+        return np.float64(vals[0]), None
+    if shape == "n1":
+        x = np.array(vals[:1])
+        return x, x
+    if shape == "list":
+        return list(vals), None
+    if shape == "f4":
+        x = np.array(vals, dtype="f4")
+        return (x, x) if [float(t) for t in x] == list(vals) else (None, None)
+    if shape == "int":
+        return (np.array(vals, dtype="i8"),) * 2 if all(float(t).is_integer() for t in vals) else (None, None)
+    if shape == "swapped":
+        x = np.array(vals, dtype=">f8")
+        return x, x
+    if shape == "strided":
+        big = np.full(2 * len(vals) + 1, 7.25)
+        big[1::2] = vals
+        return big[1::2], big
+    x = np.array(vals)
+    return x, x
+
+
 def _shift_eval(fn, shape, lonf, others, mode, s):
-    """-> (err, value)"""
+    """-> (err, value) or None when the representation cannot hold the values"""
     try:
-        if shape == "scalar":
-            x = lonf
-        elif shape == "n1":
-            x = np.array([lonf])
-        else:
-            x = np.array([lonf] + others)
-        keep = None if shape == "scalar" else x.tobytes()
+        vals = [lonf] + others
+        x, base = _shift_arg(shape, vals)
+        if x is None:
+            return None
+        keep = None if base is None else base.tobytes()
         with np.errstate(all="ignore"):
             r = np.asarray(_shift_call(fn, x, mode, s), dtype="f8").ravel()
-        if keep is not None and x.tobytes() != keep:
+        if keep is not None and base.tobytes() != keep:
             return "ArgumentModified", None
-        if r.size != (1 if shape != "array" else 1 + len(others)):
+        if r.size != (1 if shape in ("scalar", "npscalar", "n1") else len(vals)):
             return "ShapeError", None
         return "none", float(r[0])
     except Exception as e:  # noqa
@@ -459,10 +567,11 @@ def eval_shift(job):
     obs, meta = [], {}
     for mode, s in calls:
         classes = {}
-        for fn in ("shiftlon", "shiftra"):
-            for shape in SHAPES:
-                err, r = _shift_eval(fn, shape, lonf, others, mode, s / u)
-                classes.setdefault((err, None if r is None else r.hex()), []).append((fn, shape))
+        for fn, shapes in (("shiftlon", SHIFT_REPS), ("shiftra", SHAPES)):
+            for shape in shapes:
+                res = _shift_eval(fn, shape, lonf, others, mode, s / u)
+                if res is not None:
+                    classes.setdefault((res[0], None if res[1] is None else res[1].hex()), []).append((fn, shape))
         for (err, hx), members in sorted(classes.items(), key=lambda kv: (kv[0][0], kv[0][1] or "")):
             o = {"k": len(obs) + 1, "mode": mode, "s": s, "err": err, "isint": False, "v": 0}
             if hx is not None:
@@ -479,8 +588,8 @@ def eval_shiftr(job):
     for i, (lh, sh, mode) in enumerate(job["cases"]):
         lonf, s = float.fromhex(lh), float.fromhex(sh)
         classes = {}
-        for fn in ("shiftlon", "shiftra"):
-            for shape in SHAPES:
+        for fn, shapes in (("shiftlon", ("array", "scalar", "n1", "npscalar", "list", "swapped", "strided")), ("shiftra", SHAPES)):
+            for shape in shapes:
                 err, r = _shift_eval(fn, shape, lonf, [0.0, 359.5], mode, s)
                 classes.setdefault((err, None if r is None else r.hex()), []).append((fn, shape))
         for (err, hx), members in sorted(classes.items(), key=lambda kv: (kv[0][0], kv[0][1] or "")):
@@ -502,14 +611,15 @@ def eval_shiftr(job):
 
 
 def eval_xyz(job):
-    u = job["u"]
+    u, units, dt = job["u"], job["units"], job["dt"]
     d = int(u[3])
-    st0 = tuple(np.array([t]) for t in rs_state("eq", u))
+    si = SI("eq2xyz", units=units)
+    st0 = St((np.array([t]) for t in rs_state("eqr" if units == "rad" else "eq", u)), "rad" if units == "rad" else "deg")
     tolv = job["tol9"] * 1e-9 + float(ALLOW)
     obs, meta = [], {}
-    for k, shape in enumerate(SHAPES, 1):
+    for k, shape in enumerate(job["reps"], 1):
         tr = Track(1)
-        errs, st = apply("eq2xyz", st0, shape)
+        errs, st = apply(si, st0, shape, dt=dt)
         tr.step("eq2xyz", errs, st)
         f = tr.fields(0)
         img = None
@@ -521,7 +631,7 @@ def eval_xyz(job):
         obs.append({"k": k, "err": "none" if f["err"] == "none" else f["err"].split(":")[1], "fin": f["fin"],
                     "img": img or [0, 0, 0, 0], "ul": f["ul"]})
         meta[k] = {"shape": shape, "got": [float(a[0]) for a in st], "polar": abs(int(u[2])) == d, "err": f["err"]}
-    return {"c": {"kind": "xyz", "u": u}, "obs": obs, "meta": meta}
+    return {"c": {"kind": "xyz", "u": u, "units": units, "dt": dt, "tol9": job["tol9"]}, "obs": obs, "meta": meta}
 
 
 EVAL = {"eqn": eval_eqn, "iso": eval_iso, "isor": eval_isor, "anchor": eval_anchor, "cube": eval_cube, "rot": eval_rot,
@@ -536,19 +646,41 @@ def eval_job(job):
 
 # ---------------------------------------------------------------------------------
 # signatures: <entry point / family>|<failing clause>|<structural class of the input>
+def _stripped(job):
+    """the conversions of a path equation that both sides do not apply first / last in common"""
+    lhs, rhs = list(job["eqn"]["path"]), list(job["eqn"]["rhs"])
+    while lhs and rhs and lhs[-1] == rhs[-1]:
+        lhs.pop(), rhs.pop()
+    while lhs and rhs and lhs[0] == rhs[0]:
+        lhs.pop(0), rhs.pop(0)
+    return [job["sels"][str(s)] for s in lhs + rhs]
+
+
 def families(job):
     if job["kind"] == "eqn":
-        # the conversions both sides apply first / last in common are not what makes them differ
-        lhs, rhs = list(job["eqn"]["path"]), list(job["eqn"]["rhs"])
-        while lhs and rhs and lhs[-1] == rhs[-1]:
-            lhs.pop(), rhs.pop()
-        while lhs and rhs and lhs[0] == rhs[0]:
-            lhs.pop(0), rhs.pop(0)
-        names = [job["names"][str(s)] for s in lhs + rhs]
-        return sorted({FAMILY.get(n, "euler") for n in names})
+        return sorted({FAMILY.get(si["name"], "euler") for si in _stripped(job)})
     if job["kind"] in ("iso", "isor"):
         return [FAMILY.get(job["name"], "euler")]
     return []
+
+
+def options(job, m):
+    """the non-default option values / input representation a case was run with"""
+    kind = job["kind"]
+    o = set()
+    sis = _stripped(job) if kind == "eqn" else [job["si"]] if kind in ("iso", "isor") else []
+    if any(si["units"] == "rad" for si in sis) or job.get("units") == "rad":
+        o.add("units=rad")
+    if any(si["stomp"] for si in sis):
+        o.add("stomp")
+    if job.get("dt", "f8") != "f8":
+        o.add("dt=" + job["dt"])
+    r = job.get("rep") or job.get("shape") or m.get("shape")
+    if r and r != "array":
+        o.add("rep=" + r)
+    if kind in ("shift", "shiftr") and m.get("members") and ["shiftlon", "array"] not in [list(t) for t in m["members"]]:
+        o.add("rep=" + "+".join(sorted({sh for _, sh in m["members"]})))
+    return frozenset(o)
 
 
 def raw_sig(job, meta, clause, k):
@@ -562,6 +694,8 @@ def raw_sig(job, meta, clause, k):
         if clause == "finite" and m.get("nonfin"):                   # the conversion that returned nan / inf, and in which output
             fn, comp = m["nonfin"].split(":")
             return [FAMILY.get(fn, "euler")], clause, comp
+        if clause == "lon_range":                                    # only eq2sdss documents a longitude range
+            return ["eq2sdss"], clause, "eta"
         cl = "equation" if clause in ("inverse", "loop", "chain") else clause
         return families(job), cl, "near_pole" if m.get("polar") else "generic"
     if kind in ("iso", "isor"):
@@ -570,19 +704,22 @@ def raw_sig(job, meta, clause, k):
             return [job["name"]], clause, o
         return families(job), clause, "near_pole" if m.get("polar") else "generic"
     if kind == "anchor":
+        if clause == "no_error":
+            return [job["name"]], clause, m.get("err", "x:error").split(":")[-1]
         return ["euler"], clause, "pole" if (job["a"]["free"] or abs(job["a"]["in"]["lat"][0]) == 90 * 10 ** 6) else "node"
     if kind == "cube":
         return ["rotate"], clause, "right_angles"
     if kind == "rot":
+        if clause == "no_error" and ":" in m.get("errat", ""):
+            return ["rotate"], clause, m["errat"].split(":")[1]
         if clause == "finite" and m.get("nonfin"):
             return ["rotate"], clause, m["nonfin"].split(":")[1]
         return ["rotate"], clause, "near_pole" if m.get("polar") else "generic"
     if kind in ("shift", "shiftr"):
         s = m.get("s", 0)
-        fns = sorted({fn for fn, _ in m.get("members", [])})
         mode = m.get("mode", "?")
         cls = ("negative_shift" if s < 0 else "positive_shift" if s > 0 else "zero_shift") if mode.startswith("shift") else mode
-        return ["+".join(fns) if len(fns) < 2 else "shiftlon"], clause, cls
+        return ["shiftlon"], clause, cls
     if kind == "xyz":
         if clause == "no_error":
             return ["eq2xyz"], clause, m.get("err", "x:error").split(":")[-1]
@@ -596,26 +733,32 @@ def describe(job, rec, k, clause):
     kind = job["kind"]
     if kind == "eqn":
         e = job["eqn"]
-        lhs = " o ".join(job["names"][str(s)] for s in reversed(e["path"]))
-        rhs = job["names"][str(e["rhs"][0])] if e["rhs"] else "identity"
-        return ("%s = %s (%s, %s, %s call) at input %s: left %s, right %s, %s; fin=%s lat=%s eta=[%s,%s] unit=%s*2^-52 err=%s" % (
-            lhs, rhs, e["kind"], "B1950" if job["b1950"] else "J2000", job["shape"], [float.fromhex(h) for h in m.get("in", [])],
-            m.get("lhs"), m.get("rhs"), "apart by >%.6g deg (allowed %.6g)" % ((o.get("d9", 0) - 1) * 1e-9, e["tol9"] * 1e-9),
-            o.get("fin"), o.get("lat"), o.get("el"), o.get("eh"), o.get("ul"), m.get("errat")))
+        def nm(t):
+            si = job["sels"][str(t)]
+            return si["name"] + ("[%s]" % ",".join(x for x in ("rad" if si["units"] == "rad" else "", "stomp" if si["stomp"] else "") if x)
+                                 if si["units"] == "rad" or si["stomp"] else "")
+        lhs = " o ".join(nm(t) for t in reversed(e["path"]))
+        rhs = nm(e["rhs"][0]) if e["rhs"] else "identity"
+        return ("%s = %s (%s, %s, dtype=%s, input as %s) at input %s: left %s, right %s, %s; fin=%s lat_excess=%se-9 eta=[%s,%s] "
+                "unit=%s ulp err=%s" % (
+                    lhs, rhs, e["kind"], "B1950" if job["b1950"] else "J2000", job["dt"], job["rep"],
+                    [float.fromhex(h) for h in m.get("in", [])], m.get("lhs"), m.get("rhs"),
+                    "apart by >%.6g deg (allowed %.6g)" % ((o.get("d9", 0) - 1) * 1e-9, job["tol9"] * 1e-9),
+                    o.get("fin"), o.get("lx"), o.get("el"), o.get("eh"), o.get("ul"), m.get("errat")))
     if kind in ("iso", "isor"):
         return "%s (%s) does not preserve the separation of %s and %s within %g deg: %s" % (
             job["name"], "B1950" if job["b1950"] else "J2000", job.get("p") or job.get("u"), o.get("q") or o.get("v"),
             job["tol9"] * 1e-9, {kk: vv for kk, vv in o.items() if kk not in ("q", "v")} | m)
     if kind == "anchor":
-        return "%s(%s) returned %s (%s call), documented constants give %s; off by >%.6g deg" % (
-            job["name"], [float(dval(job["a"]["in"][f])) for f in ("lon", "lat")], m.get("got"), m.get("shape"),
+        return "%s(%s, dtype=%s) returned %s (%s call), documented constants give %s; off by >%.6g deg" % (
+            job["name"], [float(dval(job["a"]["in"][f])) for f in ("lon", "lat")], job["dt"], m.get("got"), m.get("shape"),
             [float(dval(job["a"]["out"][f])) for f in ("lon", "lat")], (o.get("d9", 0) - 1) * 1e-9)
     if kind == "cube":
         return "rotate%s (%s call) is not one proper signed coordinate permutation of the rational sphere (fin=%s, err=%s, unmatched points %s)" % (
             tuple(m.get("angles", [])), m.get("shape"), o.get("fin"), o.get("err"), m.get("off"))
     if kind == "rot":
-        return "rotate(%s) at %s -> %s: fin=%s lat=%s err=%s; distance from the input after each candidate inverse (1e-9 deg): %s" % (
-            [float.fromhex(h) for h in job["ang"]], m.get("in"), m.get("rot"), o.get("fin"), o.get("lat"), o.get("err"), o.get("ds"))
+        return "rotate(%s) (input as %s) at %s -> %s: fin=%s lat_excess=%se-9 err=%s; distance from the input after each candidate inverse (1e-9 deg): %s" % (
+            [float.fromhex(h) for h in job["ang"]], job["shape"], m.get("in"), m.get("rot"), o.get("fin"), o.get("lx"), o.get("err"), o.get("ds"))
     if kind == "shift":
         return "%s(lon=%r, mode=%s, shift=%r) returned %s (err=%s) via %s" % (
             "/".join(sorted({fn for fn, _ in m["members"]})), job["lon"] / job["u"], m["mode"], m["s"] / job["u"],
@@ -625,8 +768,8 @@ def describe(job, rec, k, clause):
             m["lon"], m["mode"], m["s"], None if m["ret"] is None else float.fromhex(m["ret"]), o.get("err"), m["members"],
             {kk: vv for kk, vv in o.items() if kk not in ("k", "mode", "err")})
     if kind == "xyz":
-        return "eq2xyz of the rational-sphere point %s returned %s (%s call): img=%s unit=%s*2^-52" % (
-            job["u"], m.get("got"), m.get("shape"), o.get("img"), o.get("ul"))
+        return "eq2xyz(units=%s, dtype=%s) of the rational-sphere point %s returned %s (%s call): img=%s unit=%s ulp err=%s" % (
+            job["units"], job["dt"], job["u"], m.get("got"), m.get("shape"), o.get("img"), o.get("ul"), o.get("err"))
     return str(o)
 
 
@@ -647,17 +790,33 @@ def judge(ctx, jobs, recs, what, cap=4):
             if cl == "malformed_case":
                 raise MachineryError("FramesTrace rejected a case as malformed: %s" % jsonable(rec["c"]))
             fam, clg, cls = raw_sig(job, rec["meta"], cl, k)
-            fails.append((fam, clg, cls, rid, k, cl))
+            fails.append((fam, clg, cls, rid, k, cl, options(job, rec["meta"].get(k, {}))))
     # a failure of a mixed path is attributed to the family that also fails on its own in the same class
     def severity(f):
         o = next((t for t in recs[f[3] - 1]["obs"] if t["k"] == f[4]), {})
         return -(o.get("d9") or (min(o["ds"]) if o.get("ds") else 0))
     fails.sort(key=lambda f: (severity(f), f[3], f[4], f[5]))
     pure = {(f[0][0], f[2]) for f in fails if len(f[0]) == 1}
+    # ... and a failure under non-default options to the smallest set of them under which the same thing fails
+    optsets = {}
+    for f in fails:
+        optsets.setdefault((tuple(f[0]), f[1], f[2]), set()).add(f[6])
+    def least_of(key, opts):
+        return min((o for o in optsets[key] if o <= opts), key=lambda o: (len(o), sorted(o)))
+    # the same failure under several non-default dtypes / several input representations is one signature
+    kinds = {}
+    for f in fails:
+        key = (tuple(f[0]), f[1], f[2])
+        for tag in least_of(key, f[6]):
+            if tag.startswith(("dt=", "rep=")):
+                kinds.setdefault((key, tag.split("=")[0]), set()).add(tag)
     emitted = {}
-    for fam, clg, cls, rid, k, cl in fails:
+    for fam, clg, cls, rid, k, cl, opts in fails:
         blame = [f for f in fam if (f, cls) in pure] or fam
-        sig = "%s|%s|%s" % ("+".join(blame), clg, cls)
+        key = (tuple(fam), clg, cls)
+        least = sorted({(t.split("=")[0] + "=any" if t.startswith(("dt=", "rep=")) and len(kinds[(key, t.split("=")[0])]) > 1 else t)
+                        for t in least_of(key, opts)})
+        sig = "%s|%s|%s" % ("+".join(blame), clg, ",".join([cls] + least))
         if emitted.get(sig, 0) >= cap:
             emitted[sig] = emitted[sig] + 1
             continue
@@ -677,29 +836,52 @@ def build_jobs(ctx, exp, parts):
     rng = random.Random(ctx.seed * 1000003 + 9)
     info = exp["SEL"][0]
     sels = {s["sel"]: s for s in info["sels"]}
-    names = {str(k): v["name"] for k, v in sels.items()}
+    selmap = {str(k): {"name": v["name"], "units": v["units"], "stomp": v["stomp"], "hasdtype": v["hasdtype"]} for k, v in sels.items()}
+    edges = sorted(k for k in sels if k != 11)
     frames = {p["frame"]: p["pts"] for p in exp["PTS"]}
     gpts, spts = exp["GCPTS"][0]["pts"], exp["RSPTS"][0]["pts"]
+    dts, reps = info["dtypes"], info["reps"]
+    if sorted((o["dt"], o["rep"]) for o in exp["OPT"]) != sorted((d, r) for d in dts for r in reps):
+        raise MachineryError("exported option product incomplete")
+    atol = {o["dt"]: o["anchortol9"] for o in exp["OPT"]}
     quick = ctx.quick
     jobs = {p: [] for p in parts}
+    fpts, fint = {}, {}
 
     def frame_points(fr):
-        return ([{"k": "d", "lon": p["lon"], "lat": p["lat"], "v": [0, 0, 0, 1]} for p in frames[fr]] +
-                [{"k": "r", "lon": [0, 0], "lat": [0, 0], "v": v} for v in spts])
+        if fr not in fpts:
+            fpts[fr] = ([{"k": "d", "lon": p["lon"], "lat": p["lat"], "v": [0, 0, 0, 1]} for p in frames[fr]] +
+                        [{"k": "r", "lon": [0, 0], "lat": [0, 0], "v": v} for v in spts])
+            st = concretise(fr, fpts[fr])
+            ok = np.ones(len(fpts[fr]), bool)
+            for a in st:
+                ok &= a == np.floor(a)
+            fint[fr] = [p for p, t in zip(fpts[fr], ok) if t]        # points an integer array can hold
+        return fpts[fr]
+
+    def sample(fr, rep, n):
+        pts = frame_points(fr)
+        pool = fint[fr] if rep == "int" else pts
+        return pool if len(pool) <= n else rng.sample(pool, n)
 
     if "eqn" in parts:
         for e in exp["EQN"]:
-            allnames = [names[str(s)] for s in e["path"] + e["rhs"]]
+            allnames = [selmap[str(s)]["name"] for s in e["path"] + e["rhs"]]
             epochs = (False, True) if any(n in EULER for n in allnames) else (False,)
             pts = frame_points(e["frame"])
             for b in epochs:
-                for t in range(0, len(pts), CHUNK):
-                    jobs["eqn"].append({"kind": "eqn", "eqn": e, "names": names, "b1950": b, "pts": pts[t:t + CHUNK], "shape": "array"})
-                # scalar and length-1 calls: every point (thorough) / a seeded eighth, at least 24 (quick)
-                sub = pts if not quick else rng.sample(pts, max(24, len(pts) // 8))
-                for shape in ("scalar", "n1"):
-                    for t in range(0, len(sub), CHUNK):
-                        jobs["eqn"].append({"kind": "eqn", "eqn": e, "names": names, "b1950": b, "pts": sub[t:t + CHUNK], "shape": shape})
+                for i, dt in enumerate(dts):
+                    for j, rep in enumerate(reps):
+                        if dt == "f8" and rep == "array":
+                            sub = pts                                   # the default options: every point
+                        elif dt == "f8" and rep in ("scalar", "n1"):
+                            sub = pts if not quick else sample(e["frame"], rep, max(24, len(pts) // 8))
+                        else:                                           # every other member of the option product: a seeded sample
+                            sub = sample(e["frame"], rep, 12 if quick else 48)
+                        for t in range(0, len(sub), CHUNK):
+                            jobs["eqn"].append({"kind": "eqn", "eqn": {k: e[k] for k in ("path", "rhs", "kind", "frame")},
+                                                "sels": selmap, "b1950": b, "pts": sub[t:t + CHUNK], "rep": rep, "dt": dt,
+                                                "tol9": e["tolx"][i][j]})
 
     # Euler angle triples for rotate (degrees): lattice angles, tiny and huge ones, seeded generic ones
     fixed = [(30.0, 60.0, 45.0), (0.0, 1e-9, 0.0), (123.456, 0.0, -77.0), (0.0, 180.0, 0.0), (359.999999, 90.000001, -1e-6),
@@ -711,13 +893,17 @@ def build_jobs(ctx, exp, parts):
     if "iso" in parts:
         rows = exp["GCROW"]
         convs = []
-        for s in range(1, 11):
+        for s in edges:
             for b in ((False, True) if sels[s]["euler"] else (False,)):
                 convs.append((s, b, None))
         for tr in triples[:3 if quick else 12]:
             convs.append((11, False, [float(t).hex() for t in tr]))
         for n, (s, b, ang) in enumerate(convs):
             es = sorted(ctx_eps(exp)) if not quick else sorted(ctx_eps(exp))[n % 2::2]
+            if quick and s > 11:
+                es = es[:1]                     # the option variants of eq2xyz / xyz2eq: one eps each in the quick tier
+            common = {"sel": s, "name": sels[s]["name"], "si": selmap[str(s)], "src": sels[s]["src"], "b1950": b, "ang": ang,
+                      "tol9": sels[s]["isotol9"]}
             for row in rows:
                 p = gpts[row["i"] - 1]
                 qs = [gpts[j - 1] for j in row["js"]]
@@ -725,43 +911,45 @@ def build_jobs(ctx, exp, parts):
                 for ne, e in enumerate(es):
                     sub = [q for q in qs if hasb(q) or ne == 0]
                     if sub:
-                        jobs["iso"].append({"kind": "iso", "sel": s, "name": sels[s]["name"], "src": sels[s]["src"], "b1950": b,
-                                            "ang": ang, "e": e, "p": p, "qs": sub, "tol9": sels[s]["isotol9"]})
+                        jobs["iso"].append(dict(common, kind="iso", e=e, p=p, qs=sub))
             for row in exp["RSROW"]:
                 i = row["i"]
                 vs = [spts[i - 1 + k] for k in range(len(row["dots"]))]
-                jobs["iso"].append({"kind": "isor", "sel": s, "name": sels[s]["name"], "src": sels[s]["src"], "b1950": b, "ang": ang,
-                                    "u": spts[i - 1], "vs": vs, "dots": row["dots"], "tol9": sels[s]["isotol9"], "_row": i})
+                jobs["iso"].append(dict(common, kind="isor", u=spts[i - 1], vs=vs, dots=row["dots"], _row=i))
 
     if "anchor" in parts:
         for a in exp["ANCHOR"]:
-            jobs["anchor"].append({"kind": "anchor", "sel": a["sel"], "name": sels[a["sel"]]["name"], "a": a["a"],
-                                   "tol9": info["anchortol9"]})
+            for dt in dts:
+                jobs["anchor"].append({"kind": "anchor", "sel": a["sel"], "name": sels[a["sel"]]["name"], "a": a["a"], "dt": dt,
+                                       "tol9": atol[dt], "reps": SHAPES + ("list", "npscalar") if dt == "f8" else ("array", "scalar")})
 
     if "rot" in parts:
+        rtol = dict(zip(reps, info["rottolx"]))
         for n, c in enumerate(exp["CUBE"]):
             q = [c["phi"], c["theta"], c["psi"]]
             winds = [[0, 0, 0], [rng.choice((-1, 1)) for _ in range(3)]] + ([] if quick else [[-1, -1, -1], [1, 1, 1]])
             for w in winds:
-                jobs["rot"].append({"kind": "cube", "q": q, "wind": w, "pts": spts, "tol9": info["rottol9"]})
+                jobs["rot"].append({"kind": "cube", "q": q, "wind": w, "pts": spts, "tol9": info["rottol9"], "reps": ("array", "scalar")})
         # rotations ONTO the poles (integer-degree lattice): rotate(phi, theta, 0) takes (270 - phi, theta - 90) to latitude -90
         # and (90 - phi, 90 - theta) to +90 in the implemented convention - inputs only, nothing of this is demanded
         for phi in (0, 30):
             for th in range(1, 180):
                 two = [{"k": "d", "lon": [(270 - phi) * 10 ** 6, 0], "lat": [(th - 90) * 10 ** 6, 0], "v": [0, 0, 0, 1]},
                        {"k": "d", "lon": [(90 - phi) * 10 ** 6, 0], "lat": [(90 - th) * 10 ** 6, 0], "v": [0, 0, 0, 1]}]
-                for shape in ("array", "scalar"):
+                for shape in ("array", "scalar", "int", "f4")[:2 if phi else 4]:
                     jobs["rot"].append({"kind": "rot", "ang": [float(phi).hex(), float(th).hex(), 0.0.hex()], "cands": info["invcands"],
-                                        "tol9": info["rottol9"], "pts": two, "shape": shape})
+                                        "tol9": rtol[shape], "pts": two, "shape": shape})
         pts = frame_points("eq")
-        for tr in triples:
+        for nt, tr in enumerate(triples):
+            ang = [float(x).hex() for x in tr]
             sub = pts if not quick else rng.sample(pts, 160)
             for t in range(0, len(sub), CHUNK):
-                jobs["rot"].append({"kind": "rot", "ang": [float(x).hex() for x in tr], "cands": info["invcands"],
-                                    "tol9": info["rottol9"], "pts": sub[t:t + CHUNK], "shape": "array"})
-            small = rng.sample(pts, 12 if quick else 60)
-            jobs["rot"].append({"kind": "rot", "ang": [float(x).hex() for x in tr], "cands": info["invcands"],
-                                "tol9": info["rottol9"], "pts": small, "shape": "scalar"})
+                jobs["rot"].append({"kind": "rot", "ang": ang, "cands": info["invcands"], "tol9": rtol["array"], "pts": sub[t:t + CHUNK],
+                                    "shape": "array"})
+            for shape in reps:
+                if shape != "array" and (shape == "scalar" or not quick or nt < 8):
+                    jobs["rot"].append({"kind": "rot", "ang": ang, "cands": info["invcands"], "tol9": rtol[shape],
+                                        "pts": sample("eq", shape, 12 if quick else 60), "shape": shape})
 
     if "shift" in parts:
         for row in exp["SHIFT"]:
@@ -789,9 +977,14 @@ def build_jobs(ctx, exp, parts):
             jobs["shift"].append({"kind": "shiftr", "cases": cases[t:t + 200]})
 
     if "xyz" in parts:
+        xtol = dict(zip(dts, info["xyztol"]))
         for v in spts:
-            jobs["xyz"].append({"kind": "xyz", "u": v, "tol9": sels[9]["isotol9"]})
-    return jobs, dict(sels=sels, names=names, frames=frames, gpts=gpts, spts=spts, info=info, triples=triples)
+            for units in ("deg", "rad"):
+                for dt in dts:
+                    base = units == "deg" and dt == "f8"
+                    jobs["xyz"].append({"kind": "xyz", "u": v, "units": units, "dt": dt, "tol9": xtol[dt],
+                                        "reps": SHAPES + ("list", "npscalar", "swapped", "strided") if base else ("array", "scalar")})
+    return jobs, dict(sels=sels, frames=frames, gpts=gpts, spts=spts, info=info, triples=triples)
 
 
 def ctx_eps(exp):
@@ -859,10 +1052,10 @@ def run(ctx):
                  cfg_text=cfg(constants=dict(consts, DoExport=True), next_="NextExport", constraints=["Export"]),
                  workers=1, coverage=False, timeout=3000)
     exp = r2.records
-    for tag in ("SEL", "EQN", "PTS", "GCPTS", "RSPTS", "GCROW", "RSROW", "SHIFT", "CUBE", "ANCHOR"):
+    for tag in ("SEL", "EQN", "PTS", "OPT", "GCPTS", "RSPTS", "GCROW", "RSROW", "SHIFT", "CUBE", "ANCHOR"):
         if not exp.get(tag):
             raise MachineryError("nothing exported for %s" % tag)
-    if len(exp["PTS"]) != 5 or len(exp["EQN"]) < 60 or len(exp["ANCHOR"]) < 48 or len(exp["CUBE"]) != 64:
+    if len(exp["PTS"]) != 7 or len(exp["EQN"]) < 100 or len(exp["ANCHOR"]) < 48 or len(exp["CUBE"]) != 64 or len(exp["OPT"]) != 27:
         raise MachineryError("export incomplete: %s" % {k: len(v) for k, v in exp.items()})
     exp["_eps"] = sorted(B["EpsSet"])
     nk, worst = validate_kernel(exp, ctx.quick)
@@ -872,7 +1065,7 @@ def run(ctx):
         add_thetas(jobs["iso"], env["spts"])
     # 2b. evaluate (fork-parallel) and let TLC judge (code -> spec), in batches of bounded size
     def est(j):
-        return len(j.get("pts") or j.get("qs") or j.get("vs") or j.get("cases") or j.get("ss") or [0]) + 2
+        return len((j.get("pts") if j["kind"] != "cube" else None) or j.get("qs") or j.get("vs") or j.get("cases") or j.get("ss") or [0]) + 2
     flat = []
     for part in parts:
         if not jobs[part]:
